@@ -30,6 +30,13 @@ rewritten before every build):
                        K.shiftLeft, K.shiftRight  (+ their _loopN / _afterN)
     signal_layout.go   (*SignalLayout).generateFilters      K.generateFilters (+ _loop1, _loop2, _after1)
     signal_layout.go   (*SignalLayout).Decode (the raw-value loop)   K.decodeRaw (+ _loop1, _after1)
+    canid_builder.go   newCANIDBuilderOp, Calculate, CalculatePartials, InsertOperation,
+                       RemoveOperation, RemoveAllOperations, UseMessagePriority, UseMessageID,
+                       UseNodeID, UseCAN2A, UseBitMask
+                       K.newCANIDBuilderOp, K.calculate, K.calculatePartials, K.insertOperation,
+                       K.removeOperation, K.removeAllOperations, K.useMessagePriority, K.useMessageID,
+                       K.useNodeID, K.useCAN2A, K.useBitMask  (+ their _loop1 / _after1)
+    message.go         (*Message).GetCANID                  K.getCANID
     signal_layout.go   signExtend                           K.signExtend
     signal_layout.go   (*SignalLayout).decodeStandardSignal K.decodeStandard
     signal_layout.go   (*SignalLayout).decodeEnumSignal     K.decodeEnum (+ _loop1, _after1)
@@ -239,6 +246,41 @@ translated (kernels_value.go) and proved equal to `Acme.Arith.signExtend` / `dec
     `K_decodeEnum` holds for every list, i.e. every iteration order (with C04's unique indexes the
     order is irrelevant: `K_decodeEnum_hit`).  No match ↦ `""`.
 
+The CAN-ID builder and `GetCANID` (C14).  All of canid_builder.go that computes or mutates (the
+stringers and name / reference bookkeeping aside) and `(*Message).GetCANID` are translated
+(kernels_canid.go) against Acme.Core.CanId.
+  * `b.operations` ↦ `ops : List GoSem.KOp`: an operation as the Go code STORES it — the kind as
+    the value of the `CANIDBuilderOpKind` constant, `from`, `len`.  The model's `BOp` has the kind
+    as an inductive; `Acme.GenK.opView` (`kindCode`: priority 0, message id 1, node id 2, mask 3;
+    injective, `opView_injective`) maps a model operation to the stored one, and the equalities
+    are stated on `ops.map opView`.  `newCANIDBuilderOp` is itself a kernel (the struct literal ↦
+    the record).
+  * `Calculate` / `CalculatePartials`: the range loop calls the earlier kernel `K.calculateOp`; its
+    parameterised reads `op.kind` / `op.from` / `op.len` are resolved as projections of the range
+    variable.  `K_calculate`: = `Acme.CanId.calculate` (the left fold of `calcOp` from 0, in order).
+  * `InsertOperation` / `RemoveOperation` are state-passing (`ops` in, `(ops', error)` out) and
+    return `GoSem.Res`: `slices.Insert` / `slices.Delete` are `GoSem.sliceInsert` / `sliceDelete`,
+    which are `Res.panic` exactly where the Go functions panic (Insert unless `0 ≤ i ≤ len`,
+    Delete unless `0 ≤ i ≤ j ≤ len`); `K_insertOperation_no_panic` / `K_removeOperation_no_panic`:
+    the argument checks cover these bounds.  An error is `some (Cause, argument name)`:
+    `&ArgumentError{Name: "from", Err: ErrOutOfBounds}` ↦ `some (.ErrOutOfBounds, "from")` (the model's
+    `Err.outOfBounds "from"`), so exchanging two names or two checks breaks the equality.
+    `Acme.GenK.opsRes` reads the model's result: the new list, or the UNCHANGED list with cause and
+    name; `K_insertOperation_err` / `K_removeOperation_err` state "a rejected call changes nothing"
+    directly on the generated definitions, for every stored list.  The bounds are literals in the
+    source (`31`, `32`); were they named constants their VALUE would be inlined, so `from > 31` →
+    `from > 32` breaks `K_insertOperation` either way.
+  * `Use*` return their receiver (`return b`: no result besides the state): each appends the
+    documented operation; `K_defaultOps` chains `UseNodeID(0,4).UseMessageID(4,7).UseCAN2A()` (the chain
+    of `newDefaultCANIDBuilder` itself is transcribed by hand: `NewCANIDBuilder` creates an entity).
+  * `GetCANID`: parameters exactly as the code reads them — `m.hasStaticCANID`, `m.staticCANID`, `m.id`,
+    `m.priority`, `m.hasSenderNodeInt()` and `nodeInt.hasParentBus()` (the two one-line predicates
+    `!= nil` are parameters, not translated), `nodeInt.node.id`, and
+    `nodeInt.parentBus.canIDBuilder.operations` (it only occurs through the call of `Calculate`:
+    the callee's read `b.operations` resolved on the actual receiver); `nodeInt := m.senderNodeInt`
+    is an alias.  `K_getCANID`: = `Acme.CanId.getCANID` with `static := if hasStatic then some .. `
+    and `attached := if hasSender && hasBus then some (ops, node id)`.
+
 Where a hypothesis appears (`v < 2 ^ 64`) it says that the argument is a Go `int`: the model
 functions are defined on all of `Int`, the Go function only on 64-bit values (for `v ≥ 2^64` the
 conversion `uint64(val)` of the source has no counterpart in the model).
@@ -250,6 +292,7 @@ import Acme.Proofs.GenKernelsState
 import Acme.Proofs.GenKernelsBits
 import Acme.Proofs.GenKernelsDecode
 import Acme.Proofs.GenKernelsValue
+import Acme.Proofs.GenKernelsCanId
 import Acme.Proofs.Arith
 
 namespace Acme.Props.GenKernels
@@ -591,6 +634,103 @@ example : K.decodeEnum [("a", 1), ("b", 9)] 0x9#64 = ⟨0x9#64, "enum", .str "b"
 example : K.decodeEnum [("a", 1), ("b", 9)] 0x7#64 = ⟨0x7#64, "enum", .str ""⟩ := by decide
 
 end Value
+
+/-! ### the CAN-ID builder and `GetCANID` (canid_builder.go, message.go, property C14) -/
+
+section CanId
+open Acme.CanId Acme.GenK Acme.GoSem
+
+/-- `newCANIDBuilderOp(kind, from, len)` is the stored operation -/
+theorem K_newCANIDBuilderOp (k : Kind) (f l : Int) :
+    K.newCANIDBuilderOp (kindCode k) f l = opView ⟨k, f, l⟩ :=
+  newOp_eq k f l
+
+/-- canid_builder.go `Calculate` = `Acme.CanId.calculate`: the operations applied in order from 0 -/
+theorem K_calculate (ops : List BOp) (prio mid nid : BitVec 32) :
+    K.calculate (ops.map opView) prio mid nid = calculate ops prio mid nid :=
+  calculate_eq ops prio mid nid
+
+/-- canid_builder.go `CalculatePartials` = `Acme.CanId.partials` -/
+theorem K_calculatePartials (ops : List BOp) (prio mid nid : BitVec 32) :
+    K.calculatePartials (ops.map opView) prio mid nid = partials ops prio mid nid :=
+  calculatePartials_eq ops prio mid nid
+
+/-- canid_builder.go `InsertOperation` = `Acme.CanId.insertOp`: the three argument checks in order,
+    each with its argument name, then the positional insert; on an error the list is unchanged
+    (`opsRes`). -/
+theorem K_insertOperation (ops : List BOp) (k : Kind) (f l idx : Int) :
+    K.insertOperation (ops.map opView) (kindCode k) f l idx = opsRes ops (insertOp ops k f l idx) :=
+  insertOperation_eq ops k f l idx
+
+/-- a rejected `InsertOperation` changes nothing (every stored list, every kind value) -/
+theorem K_insertOperation_err (ops ops' : List KOp) (kind f l idx : Int) (c : K.Cause × String)
+    (h : K.insertOperation ops kind f l idx = .val (ops', some c)) : ops' = ops :=
+  insertOperation_err ops ops' kind f l idx c h
+
+/-- `slices.Insert` never panics in `InsertOperation` -/
+theorem K_insertOperation_no_panic (ops : List BOp) (k : Kind) (f l idx : Int) :
+    K.insertOperation (ops.map opView) (kindCode k) f l idx ≠ .panic :=
+  insertOperation_no_panic ops k f l idx
+
+/-- canid_builder.go `RemoveOperation` = `Acme.CanId.removeOp` -/
+theorem K_removeOperation (ops : List BOp) (idx : Int) :
+    K.removeOperation (ops.map opView) idx = opsRes ops (removeOp ops idx) :=
+  removeOperation_eq ops idx
+
+theorem K_removeOperation_err (ops ops' : List KOp) (idx : Int) (c : K.Cause × String)
+    (h : K.removeOperation ops idx = .val (ops', some c)) : ops' = ops :=
+  removeOperation_err ops ops' idx c h
+
+/-- `slices.Delete` never panics in `RemoveOperation` -/
+theorem K_removeOperation_no_panic (ops : List BOp) (idx : Int) :
+    K.removeOperation (ops.map opView) idx ≠ .panic :=
+  removeOperation_no_panic ops idx
+
+theorem K_removeAllOperations (ops : List KOp) : K.removeAllOperations ops = [] :=
+  removeAllOperations_eq ops
+
+/-- the `Use*` helpers append the documented operation -/
+theorem K_useMessagePriority (ops : List BOp) (f : Int) :
+    K.useMessagePriority (ops.map opView) f = (ops ++ [(⟨.prio, f, 2⟩ : BOp)]).map opView :=
+  useMessagePriority_eq ops f
+theorem K_useMessageID (ops : List BOp) (f l : Int) :
+    K.useMessageID (ops.map opView) f l = (ops ++ [(⟨.msgId, f, l⟩ : BOp)]).map opView :=
+  useMessageID_eq ops f l
+theorem K_useNodeID (ops : List BOp) (f l : Int) :
+    K.useNodeID (ops.map opView) f l = (ops ++ [(⟨.nodeId, f, l⟩ : BOp)]).map opView :=
+  useNodeID_eq ops f l
+theorem K_useBitMask (ops : List BOp) (f l : Int) :
+    K.useBitMask (ops.map opView) f l = (ops ++ [(⟨.mask, f, l⟩ : BOp)]).map opView :=
+  useBitMask_eq ops f l
+theorem K_useCAN2A (ops : List BOp) :
+    K.useCAN2A (ops.map opView) = (ops ++ [(⟨.mask, 0, 11⟩ : BOp)]).map opView :=
+  useCAN2A_eq ops
+
+/-- the default builder's chain `UseNodeID(0, 4).UseMessageID(4, 7).UseCAN2A()` is `defaultOps` -/
+theorem K_defaultOps : K.useCAN2A (K.useMessageID (K.useNodeID [] 0 4) 4 7) = defaultOps.map opView :=
+  defaultOps_eq
+
+/-- message.go `GetCANID` = `Acme.CanId.getCANID`: the static CAN-ID when set; the message id when
+    there is no sender node interface or it is not attached to a bus; otherwise `Calculate` of the
+    bus's builder on (priority, message id, node id). -/
+theorem K_getCANID (hasStatic : Bool) (static mid prio : BitVec 32) (hasSender hasBus : Bool)
+    (nid : BitVec 32) (ops : List BOp) :
+    K.getCANID hasStatic static mid prio hasSender hasBus nid (ops.map opView) =
+      getCANID (if hasStatic then some static else none)
+        (if hasSender && hasBus then some (ops, nid) else none) prio mid :=
+  getCANID_eq hasStatic static mid prio hasSender hasBus nid ops
+
+/-! Non-vacuity -/
+example : K.calculate (defaultOps.map opView) 0#32 0x7F#32 0xF#32 = 0x7FF#32 := by decide
+example : K.insertOperation [] 1 32 0 0 = .val ([], some (.ErrOutOfBounds, "from")) := by decide
+example : K.insertOperation [] 1 31 2 0 = .val ([], some (.ErrOutOfBounds, "length")) := by decide
+example : K.insertOperation [] 1 31 1 1 = .val ([], some (.ErrOutOfBounds, "opIndex")) := by decide
+example : K.insertOperation [⟨3, 0, 11⟩] 1 4 7 0 = .val ([⟨1, 4, 7⟩, ⟨3, 0, 11⟩], none) := by decide
+example : K.removeOperation [⟨1, 4, 7⟩, ⟨3, 0, 11⟩] 1 = .val ([⟨1, 4, 7⟩], none) := by decide
+example : K.getCANID false 0#32 0x7F#32 0#32 true true 0xF#32 (defaultOps.map opView) = 0x7FF#32 := by decide
+example : K.getCANID false 0#32 0x7F#32 0#32 true false 0xF#32 (defaultOps.map opView) = 0x7F#32 := by decide
+
+end CanId
 
 /-! ### enum and multiplexer sizes -/
 
